@@ -139,6 +139,7 @@ def run(p, report, tier):
     for kind, ci, f in ents:
         by_class.setdefault(ci.name if ci else None, []).append((kind, ci, f))
     diag = set()
+    callstats = {}
     n_draw = 0
     for cname, lst in by_class.items():
         it = Interp(p)
@@ -185,6 +186,8 @@ def run(p, report, tier):
                                           "repeated identical calls differ" if not ok4
                                           else "random_state is not the raw constructor parameter", path=ev.path())
         diag |= it.diag
+        for _k, _v in it.stats.items():
+            callstats[_k] = callstats.get(_k, 0) + _v
     # ---- R6.5 twins: stream strategies / budget managers keep their evolving
     # state in private copies, never in an object held by a constructor
     # parameter (two objects constructed with equal parameters share those)
@@ -206,6 +209,7 @@ def run(p, report, tier):
     report.analysed["stream_entities_R6.5"] = n65
     report.analysed["draw_events"] = n_draw
     report.analysed["diagnostics"] = sorted(diag)
+    report.analysed["call_resolution"] = callstats
     report.tables["external_estimators_drawing_in_fit"] = sorted(EXT_DRAWING_CLASSES)
     report.assumptions += [
         "an external estimator not in the table does not draw random numbers in fit",
